@@ -111,6 +111,33 @@ func (g *Gen) findFunc(pkgPath, key string) *ssa.Function {
 	if p == nil {
 		return nil
 	}
+	// function literal assigned to a package-level variable:  var:name
+	if strings.HasPrefix(key, "var:") {
+		initFn := p.Func("init")
+		if initFn == nil {
+			return nil
+		}
+		for _, b := range initFn.Blocks {
+			for _, ins := range b.Instrs {
+				st, ok := ins.(*ssa.Store)
+				if !ok {
+					continue
+				}
+				gv, ok := st.Addr.(*ssa.Global)
+				if !ok || gv.Name() != key[4:] {
+					continue
+				}
+				v := st.Val
+				if mc, ok := v.(*ssa.MakeClosure); ok {
+					v = mc.Fn
+				}
+				if fn, ok := v.(*ssa.Function); ok {
+					return fn
+				}
+			}
+		}
+		return nil
+	}
 	// closure stored in a package-level map literal:  name["key"]
 	if i := strings.Index(key, "[\""); i > 0 && strings.HasSuffix(key, "\"]") {
 		mk := key[i+2 : len(key)-2]
@@ -186,7 +213,7 @@ func (g *Gen) newFnVC(fn *ssa.Function, c *Contract, key string) *FnVC {
 		bwrites: map[int]map[string]bool{}, ball: map[int]bool{},
 		lits: map[string]string{}, trusted: map[string]bool{}, paramTV: map[string]TV{},
 		specDefined: map[string]*specFunInfo{}, bitInfoCache: map[ssa.Value][3]int{},
-		extPairs: map[string]bool{}, closures: map[ssa.Value]*ssa.MakeClosure{}, heapNextref: map[string]string{},
+		extPairs: map[string]bool{}, closures: map[ssa.Value]*ssa.MakeClosure{}, heapNextref: map[string]string{}, heapAlias: map[string]string{},
 	}
 }
 
@@ -197,6 +224,9 @@ func (f *FnVC) scriptHeadOpt(withQ bool) string {
 	var sb strings.Builder
 	sb.WriteString("(set-option :produce-models true)\n(set-logic ALL)\n")
 	sb.WriteString(preludeText())
+	if withQ {
+		sb.WriteString(zarrAxiomText())
+	}
 	if f.strAx && withQ {
 		sb.WriteString(strAxiomText())
 	}
